@@ -197,6 +197,7 @@ def shape_part(ctx, fl, verdict, stats):
                 kobs = [len(set(m[:, j].tolist())) for j in range(n)]
                 want = k_doc if is_all else v
                 stats["shape_cases"] += 1
+                stats["keys"].add(("shape", is_all, v, n))
                 stats["rows_total"] += m.shape[0]
                 if len(set(kobs)) != 1 or kobs[0] != want or m.shape[0] != want**n:
                     if is_all:
@@ -417,7 +418,7 @@ def text_part(ctx, fl, verdict, stats):
         last_values = [float(np.take(iv.value, -1)) for iv in ivs]
         before = copy.deepcopy(engine)
         exporter = fl.FldExporter(separator=sep, headers=hdr, input_values=xi, output_values=xo)
-        replay = {"kind": "text", "case": case, "engine": fl.FllExporter().to_string(before), "v": v, "scope": "all" if is_all else "each", "separator": sep,
+        replay = {"kind": "text", "case": case, "n": n, "engine": fl.FllExporter().to_string(before), "v": v, "scope": "all" if is_all else "each", "separator": sep,
                   "headers": hdr, "inputs": xi, "outputs": xo, "decimals": d, "active": flags, "last_values": last_values}
         what = f"case {case}: engine {engine.name} ({n} inputs, {len(ovs)} outputs), {'all' if is_all else 'each'} variables = {v}, sep {sep!r}, decimals {d}, headers/inputs/outputs {hdr}/{xi}/{xo}, active {flags}"
         with fl.settings.context(decimals=d):
@@ -426,6 +427,7 @@ def text_part(ctx, fl, verdict, stats):
         outs = np.array(engine.output_values, dtype=float)
         p = int(pow(v, 1.0 / n))
         stats["text_cases"] += 1
+        stats["keys"].add(("text", engine.name, n, is_all, v, sep, hdr, xi, xo, d, tuple(flags), text))
         stats["text_rows"] += len(ins)
         stats["cls_scope_" + ("all" if is_all else "each")] += 1
         stats[f"cls_inputs_{n}"] += 1
@@ -581,6 +583,7 @@ def reader_part(ctx, fl, verdict, stats):
             got, err = None, "EInternal"
             msg = f"{type(e).__name__}: {e}"
         stats["reader_cases"] += 1
+        stats["keys"].add(("reader", engine.name, n, text, skip, sep, hdr, xi, xo, d, got, err))
         stats["cls_reader_" + flavour] += 1
         # ---- independent reading of the text
         src = text.split("\n")
@@ -682,6 +685,7 @@ def run(ctx, build, verdict, ev):
 
     stats = Stats()
     stats["samples"] = []
+    stats["keys"] = set()
     decimals0 = fl.settings.decimals
     g1, i1 = shape_part(ctx, fl, verdict, stats)
     g2, i2 = text_part(ctx, fl, verdict, stats)
@@ -692,7 +696,7 @@ def run(ctx, build, verdict, ev):
     mism = []
     if not build.translation_errors:
         for name, groups, index, chunk in (("c18shape", g1, i1, 400), ("c18text", g2, i2, 8), ("c18reader", g3, i3, 40)):
-            bad, log = vlib.run_coq_cases(ctx.work, name, prelude, groups, chunk=chunk)
+            bad, log = vlib.run_coq_cases(ctx.work, name, prelude, groups, chunk=chunk, timeout=ctx.n(900, 3000))
             for i in bad:
                 if i < 0:
                     verdict.add_broken("correspondence", f"C18:coq-evaluation:{name}", log)
@@ -702,11 +706,11 @@ def run(ctx, build, verdict, ev):
         verdict.add_broken("correspondence", f"FldExporter {mism[0][0]}", f"model and implementation differ on {len(mism)} cases, first: {mism[:4]}")
     c = ev["coverage"]
     c["evaluations"] = stats["shape_cases"] + stats["edge_cases"] + stats["text_cases"] + stats["reader_cases"]
-    c["distinct_nontrivial"] = stats["shape_cases"] + stats["text_cases"] + stats["reader_cases"]
+    c["distinct_nontrivial"] = len(stats["keys"])
     c["rule"] = ("(a) every v in %s x n = 1..4 x both scopes (EachVariable only while v^n <= %d; %d combinations skipped as too large to export) on a real engine "
                  "with n inputs: rows, values per input, first/last row, sequential checksum of the matrix; (b) random engine (shipped examples / generated FLL, 1-4 inputs) x v x scope x "
                  "switches x separator x decimals x active subset, whole text; (c) random reader texts (comments, blank lines, whitespace of every ASCII kind, skipped lines, extra columns, "
-                 "too few / ragged / non-numeric / empty).  Every case is distinct by construction (distinct (v, n, scope) or independently drawn); non-trivial = all of them except the %d edge cases"
+                 "too few / ragged / non-numeric / empty).  distinct_nontrivial = measured number of distinct (scope, v, n) / (engine, configuration, exported text) / (engine, configuration, reader text, result) keys; the %d edge cases (v <= 0, no inputs) are not counted"
                  % ("1..300 + perfect powers <= 2000 and neighbours" if ctx.tier == "quick" else "1..2000", ctx.n(4096, 20000), stats["each_skipped_too_large"], stats["edge_cases"]))
     c["distribution"] = {k: v for k, v in stats.items() if k.startswith(("cls_", "scalar_mode")) or k in ("shape_cases", "edge_cases", "text_cases", "reader_cases", "rows_total", "text_rows", "reader_rows", "each_skipped_too_large")}
     c["correspondence_mismatches"] = len(mism)
